@@ -452,7 +452,10 @@ Proof.
     + destruct (flush_frame _ _ _ _ _) as [e1 s1] eqn:Hf. apply flush_frame_FP in Hf.
       destruct e1; [inv H; exact Hf|]. apply IH in H. eapply FP_trans'; eauto.
     + destruct chunks as [|ch rest]; [inv H; apply FP_refl|].
-      apply IH in H. wsimpl. eapply FP_trans; [|exact H]. fp_same. apply FP_refl.
+      destruct (dropN _ ch) as [|r0 rem]; [destruct rest as [|r1 rest1]|].
+      * inv H. fp_same. apply FP_refl.
+      * apply IH in H. wsimpl. eapply FP_trans; [|exact H]. fp_same. apply FP_refl.
+      * apply IH in H. wsimpl. eapply FP_trans; [|exact H]. fp_same. apply FP_refl.
 Qed.
 
 Lemma mw_close_FP c s e s' : mw_close c s = (e, s') -> FP (deadline s) s s'.
@@ -1253,8 +1256,10 @@ Proof.
     + destruct (flush_frame _ _ _ _ _) as [e1 s1] eqn:Hf. apply flush_frame_MW in Hf; [|exact Hcur].
       destruct e1; [inv H; exact Hf|]. apply IH in H. eapply MW_trans; eauto.
     + destruct chunks as [|ch rest]; [inv H; apply MW_refl|].
-      apply IH in H. eapply MW_trans; [|exact H].
-      mw_setcur (MW_refl c s) Hcur.
+      destruct (dropN _ ch) as [|r0 rem]; [destruct rest as [|r1 rest1]|].
+      * inv H. mw_setcur (MW_refl c s) Hcur.
+      * apply IH in H. eapply MW_trans; [|exact H]. mw_setcur (MW_refl c s) Hcur.
+      * apply IH in H. eapply MW_trans; [|exact H]. mw_setcur (MW_refl c s) Hcur.
 Qed.
 
 Lemma mw_close_MW c s e s' : mw_close c s = (e, s') -> MW c s s'.
